@@ -26,7 +26,7 @@ META = {'explanation': 'Read-effect (frame) contracts over the AST call graph de
                        'a bounded run-time interleaving test cross-checks the analysis.'}
 EXTRA_TASKS = ['effects', 'dispatch_tables', 'cached_values_not_mutated', 'runtime_crosscheck']
 # 'what was later done to previously returned objects': the ownership contracts (a cached store never reaches a mutable owner)
-ALSO_PROPS = ['C04', 'C01', 'C16']
+ALSO_PROPS = ['C04', 'C01', 'C16', 'C03', 'C05', 'C10']   # every contract whose ownership clause can see a memoised store being adopted or changed
 
 
 import re as _re
